@@ -39,12 +39,13 @@ def wfStep (ctx : BodyCtx) (pre : List String) (acc : List String × List String
   | .decl ty name rhs =>
       let p1 := if declared.contains name || pre.contains name then [s!"{name} declared twice"] else []
       let p2 := if cKeywords.contains name then [s!"{name} is a C keyword"] else []
+      let p2c := if isPluginConst name then [s!"{name} is a plugin constant"] else []
       let p3 := if knownDeclTypes.contains ty then [] else [s!"declaration of {name} with unexpected type '{ty}'"]
       let bad := rhs.uses.filter (fun (x, _) => !(declared.contains x || pre.contains x || isPluginConst x))
       let p4 := bad.map (fun (x, _) => s!"identifier {x} used in the initialiser of {name} before/without declaration")
       let badH := rhs.heads.filter (fun f => !(ilHeads.contains f || ctx.callees.contains f))
       let p5 := badH.map (fun f => s!"unknown function {f} in the initialiser of {name}")
-      (name :: declared, probs ++ p1 ++ p2 ++ p3 ++ p4 ++ p5, seenRet)
+      (name :: declared, probs ++ p1 ++ p2 ++ p2c ++ p3 ++ p4 ++ p5, seenRet)
 
 theorem wfBodyProblems_eq (ctx : BodyCtx) (b : Body) :
     wfBodyProblems ctx b =
@@ -118,7 +119,7 @@ theorem wfFrom_of_fold (ctx : BodyCtx) (pre : List String) (items : List Item)
       have ihr := ih hrest (n :: D) h1 h2
       simp only [wfStep, List.nil_append, List.append_eq_nil_iff, List.map_eq_nil_iff, List.filter_eq_nil_iff,
         Bool.false_eq_true, if_false] at hP
-      obtain ⟨⟨⟨⟨hp1, _⟩, _⟩, hp4⟩, _⟩ := hP
+      obtain ⟨⟨⟨⟨⟨hp1, _⟩, _⟩, _⟩, hp4⟩, _⟩ := hP
       have hp1' : (D.contains n || pre.contains n) = false := by
         cases hc : (D.contains n || pre.contains n) with
         | false => rfl
@@ -238,7 +239,7 @@ def ilNames : List Item → List String
   | _ :: rest => ilNames rest
 
 /-- Side condition: no declared name is a plugin constant (`true`, `IL_TRUE`, `HEX_…`): the checker accepts a use
-    of such a name without looking for a declaration. -/
+    of such a name without looking for a declaration.  Implied by an empty problem list (`constFree_of_fold`). -/
 def constFree (items : List Item) : Bool := (declNames items).all (fun n => !isPluginConst n)
 
 theorem ilNames_sub_declNames : ∀ (items : List Item) (x : String), x ∈ ilNames items → x ∈ declNames items
@@ -417,6 +418,31 @@ theorem declNames_noComments : ∀ items : List Item, declNames (noComments item
 
 theorem constFree_noComments (items : List Item) : constFree (noComments items) = constFree items := by
   simp only [constFree, declNames_noComments]
+
+/-- A declaration step that reports nothing declares no plugin constant. -/
+theorem wfStep_decl_const (ctx : BodyCtx) (pre : List String) (acc : List String × List String × Bool)
+    (ty n : String) (rhs : Term) (h : (wfStep ctx pre acc (Item.decl ty n rhs)).2.1 = []) : isPluginConst n = false := by
+  obtain ⟨D, p, s⟩ := acc
+  cases hc : isPluginConst n with
+  | false => rfl
+  | true => cases s <;> simp [wfStep, hc, List.append_eq_nil_iff] at h
+
+/-- A fold of the checker that ends without problems went over `constFree` items. -/
+theorem constFree_of_fold (ctx : BodyCtx) (pre : List String) (items : List Item) :
+    ∀ acc, (items.foldl (wfStep ctx pre) acc).2.1 = [] → constFree items = true := by
+  induction items with
+  | nil => intro _ _; rfl
+  | cons it rest ih =>
+    intro acc h
+    rw [List.foldl_cons] at h
+    have hr := ih _ h
+    cases it with
+    | comment s => exact hr
+    | ret t => exact hr
+    | decl ty n rhs =>
+      have hn := wfStep_decl_const ctx pre acc ty n rhs (foldl_probs_nil ctx pre rest _ h)
+      simp only [constFree, declNames, List.all_cons, Bool.and_eq_true] at hr ⊢
+      exact ⟨by simp [hn], hr⟩
 
 theorem buildEnvIL_noComments : ∀ (items : List Item) (env : Env),
     buildEnvIL (noComments items) env = buildEnvIL items env
